@@ -98,7 +98,15 @@ type loopInfo struct {
 	back   []*ssa.BasicBlock
 }
 
+// fltRec: what is known about an (otherwise opaque) floating-point value: it is float64(a) ("int"), the quotient
+// float64(a)/float64(b) ("quo") or math.Ceil of such a quotient ("ceilquo"); a and b are integer terms
+type fltRec struct {
+	kind string
+	a, b string
+}
+
 type Enc struct {
+	flt map[string]fltRec
 	curClause *SExpr
 	callLog []callRec // interface-method calls answered by a contract (for replay stubs)
 	retHook func(st *State, res *Val)
